@@ -49,6 +49,10 @@ claimed = {
    text="Start-up of hwmon fans by the real controller over arbitrary stored curve data and all combinations of configured min/start/max x neverStop, data measured by the real initialisation sequence against a simulated fan plant (virtual time), and repeated attachment of different data to the running fan; limits read through the public getters are compared with the reference derivation after start-up, at every cycle end and after each attach; empty data must make start-up fail.",
    note="Honest scope: mostly a state machine over data; simulation contributes measured data (init sequence in virtual time), persistence and the restart/re-attach path. All-zero data: only range and configured-wins asserted; the measured minimum is not asserted.",
    tech="deterministic simulation (init sequence against a plant in virtual time) + reference limit derivation"),
+ "C16": dict(cat="exploration", ref="§3/C16",
+   text="2-4 real controllers with an empty database start with seeded delays against fan plants of differing settle times; the seeded scheduler decides every interleaving of their file operations; analysis intervals on the kernel's event sequence must be pairwise disjoint when the option is false (overlap is demonstrably observable in the control group with the option true). The lock hook parks a goroutine until the kernel observes the real mutex free (TryLock probe) and provides no exclusion itself, so removing or narrowing the real lock stays visible.",
+   note=L1NOTE+"An analysis is delimited by its first and last file operation issued from the PWM sweep or the initialisation sequence.",
+   tech="deterministic simulation: seeded schedule search over concurrent initialisation sequences, interval-disjointness oracle"),
 }
 checks = []
 for p in props:
